@@ -310,7 +310,7 @@ Lemma from_grammar_front builtins g sh command cspan defs0 :
   let expr2 := spec expr1 in
   do ord <- resolution_order defs2;
   let table := resolve_in_order ord (table0_of defs2) in
-  do _ <- spaces table (spaces_fuel table expr2) expr2 [] false;
+  do _ <- spaces table (spaces_fuel table expr2) expr2 [] false false;
   let expr5 := propagate (collapse (resolve table expr2)) 0 in
   let referenced := referenced_of defs1 expr1 in
   Ok (mkvalid command expr5 (get_nonterm_refs expr5) (unused_of referenced defs1)
